@@ -6,11 +6,18 @@ import os
 HERE = os.path.dirname(os.path.dirname(os.path.abspath(__file__)))
 GUARD = "ELEX_LIVE_MODEL_VERIF"
 
+TECH = "contract-based deductive verification: VCs generated from the real Python AST by pyvc (sidecar contracts), discharged by z3 5.1 with cvc5 on unknown"
 CLAIMED = {
     # id: (category, text, note, technique, design_ref)
-    "C06": ("proof", "rank arithmetic of _get_quantiles proved for all alpha in (0,1) and all integer B>=2 from the real AST (valid ranks, upper rank <= (B-1)/B, ranks nested for nested levels)", "A-REAL (floats as reals); numpy.floor/ceil contracts", "contract-based deductive verification: VCs generated from the real Python AST by pyvc, discharged by z3/cvc5", "DESIGN 4 C06"),
-    "C07": ("proof", "_format_called_contests (raises iff contradictory/unknown, entry values; unbounded list lengths via the pointwise loop rule) and _adjust_called_contests (decision table) proved from the real AST", "A-REAL; numpy.isclose/maximum/minimum contracts; list membership as uninterpreted predicates", "contract-based deductive verification: VCs from the real AST, z3/cvc5", "DESIGN 4 C07"),
-    "C14": ("proof", "minimum/conf-frac/split arithmetic for all alpha and all n >= minimum (>=1 training row, >=1 calibration row, quantile < 1) and the gate (raises iff n < max minimum) proved from the real expressions/statements", "A-REAL; round-half-even exact; gate proved for 1..3 requested levels (configuration bound); slices of get_estimates executed with the prefix havoc'd", "contract-based deductive verification: VCs from the real AST (slice execution), z3/cvc5", "DESIGN 4 C14"),
+    "C01": ("proof", "partition (every feed unit exactly once, one category, live count kept) proved on the real CombinedDataHandler.__init__ + get_units for both unreporting policies; counted-votes / reporting-count conservation proved for the real _get_reporting_aggregate_votes and get_aggregate_predictions at state, county, classification and district level; unit table of ModelResultsHandler (C02 module)", "A-REAL; V1 unique ids; V2; V7 under policy zero only; A-OBJSUM; pandas contracts listed in evidence.trusted_base; outlier models abstracted as arbitrary row filters; bootstrap margin clause: see C06", TECH + "; KFrame/GFrame theory, formal sums with Lean-backed lemma instances", "DESIGN 4 C01"),
+    "C02": ("proof", "base/nonparametric aggregate identities (pred = counted + sum of unit preds; lower/upper likewise), row alignment of interval columns with the estimates table, unit table contents, and the side conditions of the sum_fiberwise lemma (levels agree) proved from the real code", "as C01/C03; gaussian interval-row alignment rests on C15; 'levels agree' = Lean lemma sum_fiberwise + proved per-table contracts", TECH, "DESIGN 4 C02"),
+    "C03": ("proof", "floors, whole numbers and finality proved on the real get_unit_predictions, nonparametric get_unit_prediction_intervals (incl. the whole calibration split executed symbolically) and nonparametric aggregate intervals; zero width without outstanding units", "A-REAL; V2; A-QR; Featurizer via its row-preserving contract; gaussian estimator: not yet under contract in this check (A-SIGMA)", TECH, "DESIGN 4 C03"),
+    "C05": ("proof", "with no features/fixed effects the REAL Featurizer is executed: the solver is asked the intercept-only weighted-median problem on exactly the reporting rows (weights = previous results, tau = 1/2, unregularised intercept) and every prediction is round(max((1+m)*baseline, partial count)) for the one returned m", "A-QR and L-WM (the returned m IS the weighted median) are assumptions about the external LP solver, not proved", TECH, "DESIGN 4 C05"),
+    "C06": ("proof", "rank arithmetic of _get_quantiles proved for all alpha in (0,1) and all integer B>=2 from the real AST (valid ranks, upper rank <= (B-1)/B, ranks nested for nested levels)", "A-REAL (floats as reals); numpy.floor/ceil contracts", TECH, "DESIGN 4 C06"),
+    "C07": ("proof", "_format_called_contests (raises iff contradictory/unknown, entry values; unbounded list lengths via the pointwise loop rule) and _adjust_called_contests (decision table) proved from the real AST", "A-REAL; numpy.isclose/maximum/minimum contracts; list membership as uninterpreted predicates", TECH, "DESIGN 4 C07"),
+    "C09": ("proof", "iff-characterisation of the three frames, first-applicable-reason categories, joined table and derived quantities (0 instead of NaN/inf at zero denominators) proved on the real get_units, _get_non_modeled_units, _get_unexpected_units, __init__ and Estimandizer for both policies and three estimand sets", "A-REAL; V1; V2; outlier models abstracted by their contract (row filter of the frame they receive); np.isclose/nan_to_num contracts", TECH, "DESIGN 4 C09"),
+    "C14": ("proof", "minimum/conf-frac/split arithmetic for all alpha and all n >= minimum (>=1 training row, >=1 calibration row, quantile < 1) and the gate (raises iff n < max minimum) proved from the real expressions/statements; totality of the nonparametric interval path above the gate (C03 unit)", "A-REAL; round-half-even exact; gate proved for 1..3 requested levels (configuration bound); slices of get_estimates executed with the prefix havoc'd", TECH, "DESIGN 4 C14"),
+    "C20": ("proof", "the retry binds against the INSTALLED QuantileRegressionSolver.fit signature, repeats x, y, tau, weights, lambda_, intercept with normalize_weights=False, both failure kinds reach the single non-re-raising handler, every model fit goes through fit_model", "A-QR (how failures surface); numerical sameness of the re-solve not decided", TECH, "DESIGN 4 C20"),
 }
 REASON_WIP = "check under construction in this session: no contract-based check is registered yet (see DESIGN.md section 4 for the planned contracts)"
 ALL = [f"C{i:02d}" for i in range(1, 21)]
